@@ -48,6 +48,10 @@ type sEvent struct {
 	Done   bool   `json:"done"`
 	// timed behaviours (spec/MC_Dyn.tla): tolerance of the C16 gap formulas (absent: one block time, i.e. not checked)
 	DelayMax *int64 `json:"delayMax"`
+	// behaviours of spec/MC_Live.tla (synchronous network with silent / cut-off validators): the premises of C09 hold
+	C09     bool   `json:"c09"`
+	Kind    string `json:"kind"`
+	NSilent int    `json:"nsilent"`
 }
 
 // fixedNonce makes the library draw exactly the nonce the specification chose.
@@ -164,9 +168,13 @@ func runScript(out *TraceWriter, path string, from, runs int) {
 				faulty = append(faulty, v)
 			}
 		}
-		out.Write(RunStart{Call: "RunStart", Run: run, Seed: 0, Driver: "script", Nodes: ids, Faulty: faulty, Sync: evs[0].Sync,
-			Params: map[string]any{"events": len(evs), "n0": evs[0].Env.Ledger.NVals, "myIndex": evs[0].Env.Ledger.MyIndex,
-				"h0": evs[0].Env.Ledger.Height, "tpb": evs[0].Cfg.Tpb, "maxTpb": evs[0].Cfg.MaxTpb, "delayMax": delayMaxOf(evs[0])}})
+		params := map[string]any{"events": len(evs), "n0": evs[0].Env.Ledger.NVals, "myIndex": evs[0].Env.Ledger.MyIndex,
+			"h0": evs[0].Env.Ledger.Height, "tpb": evs[0].Cfg.Tpb, "maxTpb": evs[0].Cfg.MaxTpb, "delayMax": delayMaxOf(evs[0])}
+		if evs[0].C09 {
+			params["c09"], params["kind"], params["nsilent"] = true, evs[0].Kind, evs[0].NSilent
+			faulty = []int{} // silent validators are not Byzantine: every real node counts for agreement
+		}
+		out.Write(RunStart{Call: "RunStart", Run: run, Seed: 0, Driver: "script", Nodes: ids, Faulty: faulty, Sync: evs[0].Sync, Params: params})
 		for _, e := range evs {
 			c.Clk.Now = e.Env.Now
 			id := 500
@@ -226,11 +234,17 @@ func runScript(out *TraceWriter, path string, from, runs int) {
 				c.Emit(n.NewTransaction())
 			}
 		}
-		if last := evs[len(evs)-1]; evs[0].Sync && last.Done {
+		if last := evs[len(evs)-1]; (evs[0].Sync || evs[0].C09) && last.Done {
 			// the specification says this synchronous run is complete: every live node must have decided up to the target
 			end := RunEnd{Call: "RunEnd", Run: run, Now: c.Clk.Now, Target: evs[0].Target, Heights: [][]int{}, Live: []int{}}
 			for _, n := range c.Nodes {
-				end.Heights = append(end.Heights, []int{n.ID, int(n.Height)})
+				hh := n.Height // the ledger follows the blocks the node accepted (the specification's environment drives it call by call)
+				for h, acc := range n.Accepted {
+					if len(acc) > 0 && h > hh {
+						hh = h
+					}
+				}
+				end.Heights = append(end.Heights, []int{n.ID, int(hh)})
 				end.Live = append(end.Live, n.ID)
 			}
 			out.Write(end)
